@@ -218,6 +218,29 @@ int main(int argc, char** argv) {
         return o == Outcome::Other ? 1 : 0;
     }
 
+    if (std::string(argv[1]) == "corr") {
+        // mutated unformatted files: verdict and array count of the real EclFile vs the model
+        vh::Sink sink(g_outdir);
+        int n = tier == "thorough" ? 4000 : 600;
+        for (int i = 0; i < n; ++i) {
+            std::string path = g_outdir + "/tmp/C.UNRST";
+            std::string bytes = makeResultFile(rng, path, false, rng.range(0, 1));
+            std::string kinds;
+            if (i % 8 != 0) bytes = mutateBytes(bytes, rng, false, kinds);
+            if (bytes.size() > 20000) continue;
+            vh::spit(g_outdir + "/current_input.bin", bytes);
+            vh::spit(path, bytes);
+            std::string ans;
+            try { EclIO::EclFile f(path, EclIO::EclFile::Formatted{ false }); f.loadData(); ans = "ok " + std::to_string(f.size()); }
+            catch (const std::exception&) { ans = "err"; }
+            sink.emit("eclbin.count " + vh::hex(bytes), ans);
+            sink.count(ans == "err" ? "verdict.err" : "verdict.ok");
+            std::istringstream ks(kinds); std::string k; while (std::getline(ks, k, ',')) if (!k.empty()) sink.count("mutation." + k);
+        }
+        sink.writeStats(g_outdir + "/stats.json");
+        return 0;
+    }
+
     vh::PropLog log(g_outdir + "/prop.txt");
     long ndecks = 0, nfiles = 0;
 
